@@ -35,6 +35,7 @@ def project(snap):
     k = snap["kind"]
     if k == "document":
         out = {a: snap[a] for a in KEEP_DOC}
+        out["version"] = rt._as_text(out["version"])      # RDF literals of the Document attributes come back as text
         out["sections"] = sorted((project(s) for s in snap["sections"]), key=lambda s: snapshot.canon(s["id"]))
     elif k == "section":
         out = {a: snap[a] for a in KEEP_SEC}
@@ -76,7 +77,7 @@ def gen_cases(tier):
                          secs=[rt.S("sub", types[(i + j + 1) % 4])]) for j in range(2)]
             specs.append(docs.doc_of(secs, author="author %d" % i, version="%d.0" % i))
         cases.append({"layer": "D", "spec": specs[0], "more": specs[1:], "tags": {"documents": ndocs},
-                      "fmts": FORMATS, "entries": ["string", "file"] + (["odml.save"] if ndocs == 1 else []),
+                      "fmts": FORMATS, "entries": ["string", "file", "string-writer-used-twice"] + (["odml.save"] if ndocs == 1 else []),
                       "sub": ["on", "off", "custom"]})
     # documents with equal content and different ids (a document and its copy; two empty documents), and entities of
     # one export that name the same repository
